@@ -2,4 +2,4 @@
 //@ body_start
         broadcast use ax_constant_header_values_ok;
 //@ closure 0
-|e: SerdeJsonError| -> (h: HttpError) ensures status_of(h) == 500
+|e: SerdeJsonError| -> (h: HttpError) 
